@@ -7,7 +7,7 @@ node or in `NodeMapByID` is allocated (no dangling pointer: `Tree.get` never fal
 child lists have no duplicates, and every `NodeMapByID` entry points at a node carrying that id.
 
 NOT part of `WF` (see Props/C19.lean): acyclicity of the parent relation and exactness of the cached
-lengths - the latter is false of the pinned code (`stale_length_witness_off` - repaired, 7d079773 -, `surrogate_split_witness`).
+lengths - the latter was false of the code before two repairs (`stale_length_witness_off` - repaired, 7d079773 -, `surrogate_split_witness_off` - repaired, 0e18e1d8 -).
 -/
 import YorkieModel.Lemmas.TreeBasic
 namespace Yorkie.Tree
